@@ -253,6 +253,14 @@ def progress_violation(stats, min_attempts=10):
 
 
 def shrink(plan):
+    simple = {'mode': 'fifo', 'bg_steps': 0, 'inq_cap': 64, 'cpu_count': 4, 'base_ms': 10.0, 'faults': {}}
+    if plan['sim'] != simple:
+        p = copy.deepcopy(plan)
+        p['sim'] = simple
+        yield p
+        p = copy.deepcopy(plan)
+        p['sim'] = dict(simple, mode='lifo')
+        yield p
     R = len(plan['rows'])
     # drop a row
     if R > 1:
